@@ -43,6 +43,7 @@ TABLE = [
     ("ProgressivelyTerminalDecider respects production weights when its depth heuristic is zero", "C19", "ProgressivelyTerminalDecider fell through to the first alternative (even a zero-weight one) whenever its depth heuristic was zero for every alternative"),
     ("each FitnessK column of the CSV log", "C20", "every FitnessK column of the CSV log held the last fitness component (late-binding closure)"),
     ("SimpleGP's extra CSV fields each call their own callback", "C20", "every SimpleGP csv_extra_fields column was computed with the last callback (late-binding closure)"),
+    ("RandomizeParallelStep falls back to equal weights", "C15", "RandomizeParallelStep: four zero draws for the new weights made the next generation die with ZeroDivisionError in compute_ranges"),
 ]
 
 log = subprocess.check_output(["git", "-C", "/repo", "log", "--format=%h %s"]).decode().splitlines()
